@@ -1,4 +1,6 @@
 import LarkVerif.Shape
+import LarkVerif.RuleSize
+import LarkVerif.Extracted
 /-! # C03 — the returned tree is the documented shaping of a derivation -/
 namespace Props.C03
 open ShapeProto
@@ -26,5 +28,21 @@ theorem alias_never_inlined (e : Bool) (a name : Nat) (ks : List Val) : finish e
 -- non-vacuity: `start: [A] "," B` on ",b" with maybe_placeholders: children = [None, b]
 example : specChildren false [true, false, false] [(⟨true, true, false⟩, Val.tok 0 0), (⟨true, false, false⟩, Val.tok 1 0)] = [Val.none, Val.tok 1 0] := by rfl
 example : applyPlan false (runs [true, false, false]) [(⟨true, true, false⟩, Val.tok 0 0), (⟨true, false, false⟩, Val.tok 1 0)] 0 = [Val.none, Val.tok 1 0] := by rfl
+
+/-- **Placeholder count.** The number of `None`s an unmatched `[..]` contributes — computed by `FindRuleSize` as sums over sequences and maxima over
+    alternatives of the expanded body — is the number of symbols its longest alternative keeps (for every well-formed body; nested `[..]` count like
+    their own body, `nested_placeholder`). -/
+theorem placeholder_count_is_longest_alternative (e : RuleSizeProto.E) (h : RuleSizeProto.WF e) :
+    RuleSizeProto.size e = RuleSizeProto.longest (RuleSizeProto.alts e) := RuleSizeProto.size_eq_longest e h
+
+theorem nested_placeholder (x : RuleSizeProto.E) (k : Nat) :
+    RuleSizeProto.size (.alt [x, .seq (List.replicate k (.sym false))]) = RuleSizeProto.size x := RuleSizeProto.nested_maybe x k
+
+/-- the source of `FindRuleSize` is what `RuleSizeProto.size` models (re-extracted from /repo on every run): `expansion` sums, `expansions` takes the
+    maximum, a non-terminal counts unless its name starts with `_`, a terminal counts under `keep_all_tokens` or when it is not filtered, `_EMPTY` never -/
+theorem find_rule_size_source_is_modelled :
+    Extracted.findRuleSize = [("expansion", "sum(self._args_as_int(args))"), ("expansions", "max(self._args_as_int(args))"),
+      ("isinstance(sym, NonTerminal)", "not sym.name.startswith('_')"), ("isinstance(sym, Terminal)", "self.keep_all_tokens or not sym.filter_out"),
+      ("sym is _EMPTY", "False"), ("yield", "a"), ("yield", "1 if self._will_not_get_removed(a) else 0")] := by decide
 
 end Props.C03
